@@ -30,7 +30,7 @@ func (r *vRec) Write(b []byte) (int, error) { return len(b), nil }
 func (r *vRec) WriteHeader(c int)           { r.code = c }
 
 func VerifGenFullStackEmbedded() {
-	op := vChoice("op", 4) // 0 listThings (global: key), 1 dropThings (oauth[write] OR basic+qkey), 2 openThing (none), 3 adminThings (oauth[admin,read])
+	op := vChoice("op", 6) // 4 maybeThings (key OR anonymous), 5 rootThing on "/" (global: key); 0 listThings (global: key), 1 dropThings (oauth[write] OR basic+qkey), 2 openThing (none), 3 adminThings (oauth[admin,read])
 	// credentials presented and whether each is good
 	hasKey, goodKey := vBool("key.present"), vBool("key.good")
 	hasQ, goodQ := vBool("qkey.present"), vBool("qkey.good")
@@ -93,6 +93,16 @@ func VerifGenFullStackEmbedded() {
 		called, got = true, nil
 		return middleware.NotImplemented("x")
 	})
+	api.MaybeThingsHandler = operations.MaybeThingsHandlerFunc(func(p operations.MaybeThingsParams, pr interface{}) middleware.Responder {
+		which = "maybeThings"
+		called, got = true, pr
+		return middleware.NotImplemented("x")
+	})
+	api.RootThingHandler = operations.RootThingHandlerFunc(func(p operations.RootThingParams, pr interface{}) middleware.Responder {
+		which = "rootThing"
+		called, got = true, pr
+		return middleware.NotImplemented("x")
+	})
 	api.Init()
 	h := api.Context().RoutesHandler(nil) // the API handler without the documentation middlewares (they copy their options through encoding/gob)
 	method, path := "GET", "/api/things"
@@ -104,6 +114,12 @@ func VerifGenFullStackEmbedded() {
 	}
 	if op == 3 {
 		method = "POST"
+	}
+	if op == 4 {
+		method = "PUT"
+	}
+	if op == 5 {
+		path = "/api"
 	}
 	query := url.Values{}
 	if validParams {
@@ -128,8 +144,11 @@ func VerifGenFullStackEmbedded() {
 	// the effective requirement of each operation, as a predicate over the credentials
 	var authorized bool
 	switch op {
-	case 0:
+	case 0, 5:
 		authorized = vAnd(hasKey, goodKey)
+	case 4:
+		// optional authentication: a presented key must be good, no key means anonymous
+		authorized = vOr(!hasKey, goodKey)
 	case 1:
 		bearer := vAnd(vAnd(!hasBasic, hasBearer), goodBearer)
 		basicAndQ := vAnd(vAnd(hasBasic, goodBasic), vAnd(hasQ, goodQ))
@@ -155,9 +174,16 @@ func VerifGenFullStackEmbedded() {
 		}
 	}
 	if called {
-		vAssert(which == []string{"listThings", "dropThings", "openThing", "adminThings"}[op], "the request is routed to the handler of another operation")
+		vAssert(which == []string{"listThings", "dropThings", "openThing", "adminThings", "maybeThings", "rootThing"}[op], "the request is routed to the handler of another operation")
 	}
-	if called && op != 2 {
+	if called && op == 4 {
+		if hasKey {
+			vAssert(got == "alice", "with optional authentication the principal of a presented credential is not handed to the handler")
+		} else {
+			vAssert(got == nil, "an anonymous request is handed a principal")
+		}
+	}
+	if called && op != 2 && op != 4 {
 		vAssert(got == "alice", "the principal handed to the handler is not the authenticator's")
 	}
 }
